@@ -149,3 +149,56 @@ def run_case(cfg: Dict, rng: Rng, episodes: int, steps_per_episode: int, max_len
     except Exception as e:
         fails.append({"kind": "close-raises", "exc": type(e).__name__, "log": list(log)})
     return lines, impl, fails, log
+
+
+def scheduled_dirs() -> Dict[str, Any]:
+    """Folder scenarios shipped with the package (schedule.yaml + base scenario + variants)."""
+    return {d.name: d for d in sorted(scen.PKG.iterdir()) if d.is_dir() and (d / "schedule.yaml").exists()}
+
+
+def run_scheduled(path, rng: Rng, extra_resets: int, steps: int) -> Tuple[List[str], List[str], List[dict], List[Any]]:
+    """An episode-scheduled scenario: more resets than the schedule has entries (the scheduler must loop), a few steps each."""
+    import yaml
+    from primaite.session.environment import PrimaiteGymEnv
+    lines: List[str] = []
+    impl: List[str] = []
+    fails: List[dict] = []
+    log: List[Any] = []
+    n_sched = len(yaml.safe_load((path / "schedule.yaml").read_text())["schedule"])
+    try:
+        env = PrimaiteGymEnv(env_config=str(path))
+    except Exception as e:
+        return [], [], [{"kind": "env-construction-raises", "exc": type(e).__name__, "msg": str(e)[:300]}], log
+    for ep in range(n_sched + extra_resets):
+        try:
+            env.reset(seed=rng.below(2 ** 31))
+        except Exception as e:
+            fails.append({"kind": "reset-raises", "exc": type(e).__name__, "msg": str(e)[:300], "reset_number": ep + 1,
+                          "schedule_length": n_sched, "log": list(log)})
+            break
+        log.append("reset")
+        max_len = env.game.options.max_episode_length
+        lines += ["reset", f"new {len(env.game.agents)} {max_len}"]
+        impl += ["ok", fmt(env)]
+        for a in env.game.agents.values():
+            if a.history or a.reward_function.total_reward != 0:
+                fails.append({"kind": "reset-not-fresh", "agent": a.config.ref, "log": list(log)})
+        n = int(env.action_space.n)
+        for t in range(steps if ep % 2 else max(1, steps // 2)):
+            act = rng.below(n)
+            log.append(act)
+            try:
+                obs, reward, terminated, truncated, info = env.step(act)
+            except Exception as e:
+                fails.append({"kind": "step-raises", "exc": type(e).__name__, "msg": str(e)[:300],
+                              "action": env.agent.action_manager.action_map[act][0], "log": list(log)})
+                return lines, impl, fails, log
+            lines.append(f"step {act}")
+            impl.append(f"{fmt(env)} trunc={1 if truncated else 0} term={1 if terminated else 0}")
+            if not math.isfinite(float(reward)):
+                fails.append({"kind": "reward-not-finite", "value": repr(reward), "log": list(log)})
+    try:
+        env.close()
+    except Exception as e:
+        fails.append({"kind": "close-raises", "exc": type(e).__name__, "log": list(log)})
+    return lines, impl, fails, log
